@@ -145,39 +145,85 @@ end
 
 def asciiOnly (t : Text) : Bool := t.all (fun c => decide (c.toNat < 128))
 
-/-- the culture strings a text step compares case-insensitively are ASCII (the model's `asciiLower` is then `str.lower`) -/
-def stepAscii (cu : Culture) : Step → Bool
-  | .amPm _ => asciiOnly cu.am && asciiOnly cu.pm
-  | .monthText count => (monthTable cu count true).all asciiOnly && (monthTable cu count false).all asciiOnly
-  | .dayText count => (dayTable cu count).all asciiOnly
-  | .era => (cu.eraNamesBCE ++ cu.eraNamesCE).all asciiOnly
-  | .eraC cal => (eraNamesOf cu (eraIdOfCal cal)).all asciiOnly
+/-- every character is ASCII or listed in the folding table `fold` -/
+def coveredBy (fold : List (Char × Char)) (t : Text) : Bool :=
+  t.all (fun c => decide (c.toNat < 128) || (lookupFold c fold).isSome)
+
+/-- `xXyY…` → [(x, X), (y, Y), …] -/
+def pairsOf : Text → List (Char × Char)
+  | a :: b :: t => (a, b) :: pairsOf t
+  | _ => []
+
+def withFold (cu : Culture) (fold : Text) : Culture := { cu with fold := pairsOf fold }
+
+/-- the culture strings a text step compares case-insensitively are covered by the folding table `fold` -/
+def stepAscii (fold : List (Char × Char)) (cu : Culture) : Step → Bool
+  | .amPm _ => coveredBy fold cu.am && coveredBy fold cu.pm
+  | .monthText count => (monthTable cu count true).all (coveredBy fold) && (monthTable cu count false).all (coveredBy fold)
+  | .dayText count => (dayTable cu count).all (coveredBy fold)
+  | .era => (cu.eraNamesBCE ++ cu.eraNamesCE).all (coveredBy fold)
+  | .eraC cal => (eraNamesOf cu (eraIdOfCal cal)).all (coveredBy fold)
   | _ => true
 
-def segAscii : Seg → Bool
+def segAscii (fold : List (Char × Char)) : Seg → Bool
   | .plain _ => true
-  | .date c => c.steps.all (stepAscii c.cu)
-  | .time c => c.steps.all (stepAscii c.cu)
+  | .date c => c.steps.all (stepAscii fold c.cu)
+  | .time c => c.steps.all (stepAscii fold c.cu)
 
-def segPlainAscii (cu : Culture) : Seg → Bool
-  | .plain ss => ss.all (stepAscii cu)
+def segPlainAscii (fold : List (Char × Char)) (cu : Culture) : Seg → Bool
+  | .plain ss => ss.all (stepAscii fold cu)
   | _ => true
 
 mutual
-def patAscii : Pat → Bool
-  | .stepped c => c.steps.all (stepAscii c.cu)
-  | .zprefix p => patAscii p
-  | .composite ps => patsAscii ps
-  | .segmented cu _ segs => segs.all segAscii && segs.all (segPlainAscii cu)
-def patsAscii : List Pat → Bool
+def patAscii (fold : List (Char × Char)) : Pat → Bool
+  | .stepped c => c.steps.all (stepAscii fold c.cu)
+  | .zprefix p => patAscii fold p
+  | .composite ps => patsAscii fold ps
+  | .segmented cu _ segs => segs.all (segAscii fold) && segs.all (segPlainAscii fold cu)
+def patsAscii (fold : List (Char × Char)) : List Pat → Bool
   | [] => true
-  | p :: ps => patAscii p && patsAscii ps
+  | p :: ps => patAscii fold p && patsAscii fold ps
 end
 
 def cultureAscii (cu : Culture) : Bool :=
   asciiOnly cu.am && asciiOnly cu.pm &&
   (cu.longMonths ++ cu.shortMonths ++ cu.longMonthsGen ++ cu.shortMonthsGen ++ cu.longDays ++ cu.shortDays ++
     cu.eraNamesBCE ++ cu.eraNamesCE).all asciiOnly
+
+def opParse (tok p cu t fold : String) : Option String := do
+      let ty ← decodeType tok; let p ← decodeText' p; let cu ← decodeCulture cu
+      let t ← decodeText' t
+      let fold ← decodeText' fold
+      let cu := withFold cu fold
+      some (match compileTok tok ty cu p with
+        | .error e => "!" ++ e.name
+        | .ok pat =>
+          if patHasText pat && !(coveredBy cu.fold t && patAscii cu.fold pat) then "!dom"
+          else match parsePat (effType tok ty p) t pat with
+            | .error e => "!" ++ e.name
+            | .ok none => "fail"
+            | .ok (some v) => "ok " ++ showInts v)
+
+def opDelim (tok p cu fold : String) : Option String := do
+      let ty ← decodeType tok; let p ← decodeText' p; let cu ← decodeCulture cu
+      let fold ← decodeText' fold
+      let cu := withFold cu fold
+      some (match compileTok tok ty cu p with
+        | .error e => "!" ++ e.name
+        | .ok (.stepped c) => if Delimited c.cu c.used true c.steps then "1" else "0"
+        | .ok (.segmented cu' used segs) => if DelimitedSegs cu' used true segs then "3" else "2"
+        | .ok _ => "-")
+
+def opNames (cu fold : String) : Option String := do
+      let cu ← decodeCulture cu
+      let fold ← decodeText' fold
+      let cu := withFold cu fold
+      let bits := [monthNamesOK cu 3 true, monthNamesOK cu 3 false, monthNamesOK cu 4 true, monthNamesOK cu 4 false,
+        dayNamesOK cu 3, dayNamesOK cu 4, amPmOK cu 1, amPmOK cu 2, eraOK cu]
+      let dangers := [monthDanger cu 3 true, monthDanger cu 3 false, monthDanger cu 4 true, monthDanger cu 4 false,
+        dayDanger cu 3, dayDanger cu 4, amPmDanger cu 1, eraDanger cu]
+      some (String.ofList (bits.map (fun b => if b then '1' else '0')) ++ " " ++
+        encodeText' (List.intercalate [Char.ofNat 31] dangers))
 
 def handlePat (toks : List String) : Option String :=
   match toks with
@@ -213,24 +259,10 @@ def handlePat (toks : List String) : Option String :=
           match fmtPat ty v get pat with
           | .error e => "!" ++ e.name
           | .ok t => encodeText' t)
-  | ["pat.parse", tok, p, cu, t] => do
-      let ty ← decodeType tok; let p ← decodeText' p; let cu ← decodeCulture cu
-      let t ← decodeText' t
-      some (match compileTok tok ty cu p with
-        | .error e => "!" ++ e.name
-        | .ok pat =>
-          if patHasText pat && !(asciiOnly t && patAscii pat) then "!dom"
-          else match parsePat (effType tok ty p) t pat with
-            | .error e => "!" ++ e.name
-            | .ok none => "fail"
-            | .ok (some v) => "ok " ++ showInts v)
-  | ["pat.delim", tok, p, cu] => do
-      let ty ← decodeType tok; let p ← decodeText' p; let cu ← decodeCulture cu
-      some (match compileTok tok ty cu p with
-        | .error e => "!" ++ e.name
-        | .ok (.stepped c) => if Delimited c.cu c.used true c.steps then "1" else "0"
-        | .ok (.segmented cu' used segs) => if DelimitedSegs cu' used true segs then "3" else "2"
-        | .ok _ => "-")
+  | ["pat.parse", tok, p, cu, t] => opParse tok p cu t "-"
+  | ["pat.parse", tok, p, cu, t, fold] => opParse tok p cu t fold
+  | ["pat.delim", tok, p, cu] => opDelim tok p cu "-"
+  | ["pat.delim", tok, p, cu, fold] => opDelim tok p cu fold
   | ["pat.wf", tok, p, cu] => do
       let ty ← decodeType tok; let p ← decodeText' p; let cu ← decodeCulture cu
       some (match compileTok tok ty cu p with
@@ -241,14 +273,8 @@ def handlePat (toks : List String) : Option String :=
   | ["cu.check", cu] => do
       let cu ← decodeCulture cu
       some s!"{showBool cu.offsetTextsCustom} {showBool cu.dtTextsNoL} {showBool cu.monthHeadsEmpty}"
-  | ["cu.names", cu] => do
-      let cu ← decodeCulture cu
-      let bits := [monthNamesOK cu 3 true, monthNamesOK cu 3 false, monthNamesOK cu 4 true, monthNamesOK cu 4 false,
-        dayNamesOK cu 3, dayNamesOK cu 4, amPmOK cu 1, amPmOK cu 2, eraOK cu]
-      let dangers := [monthDanger cu 3 true, monthDanger cu 3 false, monthDanger cu 4 true, monthDanger cu 4 false,
-        dayDanger cu 3, dayDanger cu 4, amPmDanger cu 1, eraDanger cu]
-      some (String.ofList (bits.map (fun b => if b then '1' else '0')) ++ " " ++
-        encodeText' (List.intercalate [Char.ofNat 31] dangers))
+  | ["cu.names", cu] => opNames cu "-"
+  | ["cu.names", cu, fold] => opNames cu fold
   | ["pat.calids"] => some (encodeText' (List.intercalate [Char.ofNat 31] calendarIds))
   | ["pat.calords"] => some (encodeText' (List.intercalate [Char.ofNat 31] calOrdIds))
   | _ => none
